@@ -50,7 +50,7 @@ def d3_suspend_before_send(ctx, rm: REModel, rule="C09.D3-suspend-before-next-me
            "" if tests else "anchor: the test selecting throw vs send vanished", where=where(run, rm.inner_try))
 
 
-CLAIM = {'text': "Decides that the deferred-pause flag is set only on the accepted deferred branch and cleared only by a hard pause or the start of the next call (closed-world writers: _run's termination does not clear it), that in the checkpoint handler the bundling guard and the checkpoint reset dominate a pause requested with defer=False on the flag's true branch, and that in the message loop a suspension point dominates pulling the next message. Interaction with clear_checkpoint is not decided.", 'technique': 'ownership table; dominance on the handler CFG; cut-edge reachability in the message loop'}
+CLAIM = {'text': "Decides that the deferred-pause flag is set only on the accepted deferred branch and cleared only by a hard pause or the start of the next call (closed-world writers: _run's termination does not clear it), that in the checkpoint handler the bundling guard and the checkpoint reset dominate a pause requested with defer=False on the flag's true branch, that the checkpoint handler is referenced only as the registry's entry for 'checkpoint' and no other reader of the flag pauses, and that in the message loop a suspension point dominates pulling the next message. Interaction with clear_checkpoint is not decided.", 'technique': 'ownership table; dominance on the handler CFG; cut-edge reachability in the message loop'}
 
 
 def run(ctx):
